@@ -78,7 +78,7 @@ func runC16(c *Ctx) {
 		for _, g := range groups {
 			total += checkLockSpec(c, &lockSpec{Lock: g.lock, Fields: []string{g.field}, Exempt: map[string]string{"dht/fullrt.NewFullRT": "constructor"}}, "dht/fullrt")
 		}
-		c.Check("snapshot accesses", 0, total >= 12, "the snapshot fields are accessed in at least 12 guarded places", "found "+itoa(total))
+		c.Check("snapshot accesses", 0, total >= 6, "the snapshot fields are accessed in at least 6 guarded places", "found "+itoa(total))
 		// swap: every store to a snapshot field happens with ALL THREE write locks held
 		rc := c.Fn("(*" + frT + ").runCrawler")
 		li := rc.Locks()
@@ -137,7 +137,7 @@ func runC16(c *Ctx) {
 		runs := rc.Calls("(dht/crawler.Crawler).Run")
 		rc.Walk(func(n ast.Node) bool {
 			if as, ok := n.(*ast.AssignStmt); ok && len(as.Lhs) == 1 && len(as.Rhs) == 1 {
-				if id, isID := as.Lhs[0].(*ast.Ident); isID && id.Name == "foundPeers" {
+				if id, isID := as.Lhs[0].(*ast.Ident); isID && eng.NameOf(id) == "foundPeers" {
 					found = eng.ObjOf(rinfo, id)
 				}
 			}
@@ -275,12 +275,12 @@ func runC16(c *Ctx) {
 			switch x := n.(type) {
 			case *ast.ValueSpec:
 				for _, id := range x.Names {
-					if id.Name == "toDial" {
+					if eng.NameOf(id) == "toDial" {
 						toDial = info.Defs[id]
 					}
 				}
 			case *ast.AssignStmt:
-				if id, ok := x.Lhs[0].(*ast.Ident); ok && id.Name == "peersSeen" && x.Tok == token.DEFINE {
+				if id, ok := x.Lhs[0].(*ast.Ident); ok && eng.NameOf(id) == "peersSeen" && x.Tok == token.DEFINE {
 					seen = info.Defs[id]
 				}
 			}
@@ -446,9 +446,9 @@ func runC16(c *Ctx) {
 		var mkCounts *ast.AssignStmt
 		f.Walk(func(n ast.Node) bool {
 			if as, ok := n.(*ast.AssignStmt); ok && as.Tok == token.DEFINE && len(as.Lhs) == 1 {
-				if id := as.Lhs[0].(*ast.Ident); id.Name == "peers" {
+				if id := as.Lhs[0].(*ast.Ident); eng.NameOf(id) == "peers" {
 					peers = info.Defs[id]
-				} else if id.Name == "ipGroupCounts" {
+				} else if eng.NameOf(id) == "ipGroupCounts" {
 					counts = info.Defs[id]
 					mkCounts = as
 				}
@@ -622,16 +622,42 @@ func runC16(c *Ctx) {
 		q := c.Fn("(*dht/crawler.DefaultCrawler).queryPeer")
 		qinfo := q.Info()
 		okB := false
-		q.Walk(func(n ast.Node) bool {
-			if fs, ok := n.(*ast.ForStmt); ok && fs.Cond != nil {
-				if b, isB := eng.Unparen(fs.Cond).(*ast.BinaryExpr); isB {
-					if v, isC := eng.ConstInt(qinfo, b.Y); isC && ((b.Op == token.LEQ && v <= 15) || (b.Op == token.LSS && v <= 16)) {
-						okB = true
+		gens := q.Calls("(*github.com/libp2p/go-libp2p-kbucket.RoutingTable).GenRandPeerID")
+		c.Anchor(len(gens) >= 1, "crawler.queryPeer: GenRandPeerID call not found")
+		for _, gen := range gens {
+			// the argument is (a conversion of) a loop variable bounded by 15
+			arg := eng.Unparen(gen.Args[0])
+			if conv, isCall := arg.(*ast.CallExpr); isCall && len(conv.Args) == 1 {
+				if tv, ok := qinfo.Types[conv.Fun]; ok && tv.IsType() {
+					arg = eng.Unparen(conv.Args[0])
+				}
+			}
+			cpl := eng.ObjOf(qinfo, arg)
+			okThis := false
+			for n := p.Parent(gen); n != nil && cpl != nil; n = p.Parent(n) {
+				switch lp := n.(type) {
+				case *ast.ForStmt:
+					if b, isB := eng.Unparen(lp.Cond).(*ast.BinaryExpr); lp.Cond != nil && isB && eng.IsObj(qinfo, b.X, cpl) {
+						if v, isC := eng.ConstInt(qinfo, b.Y); isC && ((b.Op == token.LEQ && v <= 15) || (b.Op == token.LSS && v <= 16)) {
+							// the variable only moves by the post statement
+							if len(assignsDeep(q, cpl)) == 2 {
+								okThis = true
+							}
+						}
+					}
+				case *ast.RangeStmt:
+					if lp.Key != nil && eng.IsObj(qinfo, lp.Key, cpl) {
+						if v, isC := eng.ConstInt(qinfo, lp.X); isC && v <= 16 {
+							okThis = true
+						}
 					}
 				}
 			}
-			return true
-		})
+			okB = okThis
+			if !okThis {
+				break
+			}
+		}
 		c.Check(K(q.Name, "prefix loop bound"), q.Pos(), okB, "the crawler asks for common-prefix lengths 0..15 only (kbucket.GenRandPeerID fails above 15, and that error panics)", "loop bound above 15")
 	}
 
